@@ -37,7 +37,9 @@ Proof.
     assert (exists f, y = PFloat (f_round w f)) as [f ->].
     { unfold conv_leaf in H. destruct x; cbn [py_float bind] in H; try discriminate; try (inversion H; eauto; fail).
       - inversion H. exists f_nan. rewrite f_round_nonfinite; reflexivity.
-      - destruct (f_of_Z z); cbn [bind] in H; [inversion H; eauto|discriminate]. }
+      - destruct (f_of_Z z); cbn [bind] in H; [inversion H; eauto|discriminate].
+      - destruct (parse_float_text s); cbn [bind] in H; [inversion H; eauto|discriminate].
+      - destruct (parse_float_text s); cbn [bind] in H; [inversion H; eauto|discriminate]. }
     cbn [frepr_elem]. apply N.eqb_eq. apply f_round_idem.
   - apply conv_leaf_ok in H. destruct H as [_ [->|H]]; auto using leafval_FR.
 Qed.
@@ -117,8 +119,10 @@ Proof.
   - rewrite set_comp_gen in H. destruct x; try discriminate. destruct (Nat.eqb tid t); inversion H; subst. exact W.
   - rewrite assign_array_gen in H.
     assert (W1 : FR (strconv sl x) = true) by (unfold strconv; destruct sl; auto; destruct x; auto).
-    destruct (strconv sl x) as [| | | | |s| | |dt' l|] eqn:X; cbn [assignG] in H; try (eapply slowG_FR; eauto; fail).
-    + destruct (fast_bytesG e && lenG fixed (length s) cap) eqn:C; [|eapply slowG_FR; eauto].
+    destruct (strconv sl x) as [| | | | |s| | |dt' l|] eqn:X; cbn [assignG] in H; try (eapply slowG_FR; eauto; fail);
+      try (destruct (t_text_guard TG); [discriminate|]; eapply slowG_FR; eauto; fail).
+    + destruct (fast_bytesG e && lenG fixed (length s) cap) eqn:C;
+        [|destruct (t_text_guard TG); [discriminate|]; eapply slowG_FR; eauto].
       apply andb_true_iff in C. destruct C as [Cb _]. destruct e as [[|w|w|w]|t]; cbn [fast_bytesG] in Cb; try discriminate.
       eapply chkG_FR; [exact H| |]; apply forallb_forall; intros y Hy; apply in_map_iff in Hy; destruct Hy as (c & <- & _); reflexivity.
     + destruct (dtype_eqb dt' (dtype_of PW e) && lenG fixed (length l) cap) eqn:C; [|eapply slowG_FR; eauto].
